@@ -30,8 +30,10 @@ def vfn(f):
 def parent_real(spec, ops):
     if spec is None:
         return ops
+    if spec[0] == 'gb+roll':      # interleaved outer groups over overlapping windows: parent key indexes are created with jumps
+        return [rs.ops.group_by(vfn(A.f_mod(spec[1])), [rs.data.roll(spec[2], spec[3], ops)])]
     if spec[0] == 'group_by':
-        return [rs.ops.group_by(vfn(A.f_mod(spec[1])), ops)]
+        return [rs.ops.group_by(vfn(A.f_gkey(spec[1])), ops)]
     if spec[0] == 'roll':
         return [rs.data.roll(spec[1], spec[2], ops)]
     return [rs.data.split(vfn(A.splitf(spec[1], spec[2])), ops)]
@@ -40,8 +42,10 @@ def parent_real(spec, ops):
 def parent_model(spec, ctx, inner):
     if spec is None:
         return inner()
+    if spec[0] == 'gb+roll':
+        return M.Chain(ctx, [M.GroupBy(vfn(A.f_mod(spec[1])), lambda: M.Chain(ctx, [M.Roll(ctx, spec[2], spec[3], inner)]))])
     if spec[0] == 'group_by':
-        return M.Chain(ctx, [M.GroupBy(vfn(A.f_mod(spec[1])), inner)])
+        return M.Chain(ctx, [M.GroupBy(vfn(A.f_gkey(spec[1])), inner)])
     if spec[0] == 'roll':
         return M.Chain(ctx, [M.Roll(ctx, spec[1], spec[2], inner)])
     return M.Chain(ctx, [M.Split(vfn(A.splitf(spec[1], spec[2])), inner)])
@@ -54,7 +58,7 @@ def case_gen(draw):
     items = draw(st.lists(st.tuples(st.integers(0, len(pool) - 1), st.integers(-8, 8)).map(list), min_size=n, max_size=14))
     which = draw(st.sampled_from(['to_list', 'identity', 'p', 'p']))
     p = draw(gen.chain('int', INNER, 1, min_len=1)) if which == 'p' else ([['to_list']] if which == 'to_list' else [])
-    parent = draw(st.one_of(st.none(), st.none(), st.sampled_from([['group_by', 2], ['roll', 3, 2], ['roll', 2, 2], ['roll', 4, 1], ['split', 'div', 4], ['split', 'mod', 2]])))
+    parent = draw(st.one_of(st.none(), st.none(), st.sampled_from([['group_by', 2], ['roll', 3, 2], ['roll', 2, 2], ['roll', 4, 1], ['split', 'div', 4], ['split', 'mod', 2], ['gb+roll', 2, 3, 1], ['gb+roll', 3, 2, 1], ['gb+roll', 2, 4, 2]])))
     return {'pool': pool, 'items': items, 'p': p, 'parent': parent}
 
 
